@@ -82,6 +82,7 @@ struct Collector<U> {
     items: Vec<U>,
     kinds: Vec<u32>, // packed: parent kind id << 16 | kind id
     in_fstring: Vec<bool>,
+    depths: Vec<u16>,
     stack: Vec<u16>,
     names: KindNames,
 }
@@ -149,14 +150,15 @@ impl<U> Collector<U> {
             items: Vec::new(),
             kinds: Vec::new(),
             in_fstring: Vec::new(),
+            depths: Vec::new(),
             stack: Vec::new(),
             names: KIND_NAMES.with(|k| std::mem::take(&mut *k.borrow_mut())),
         }
     }
-    fn finish(mut self, want_names: bool) -> (Vec<U>, Vec<u32>, Vec<String>, Vec<bool>) {
+    fn finish(mut self, want_names: bool) -> (Vec<U>, Vec<u32>, Vec<String>, Vec<bool>, Vec<u16>) {
         let names = if want_names { self.names.names.clone() } else { Vec::new() };
         KIND_NAMES.with(|k| *k.borrow_mut() = std::mem::take(&mut self.names));
-        (self.items, self.kinds, names, self.in_fstring)
+        (self.items, self.kinds, names, self.in_fstring, self.depths)
     }
 }
 
@@ -188,6 +190,7 @@ impl<U: Clone + std::fmt::Debug> Fold<U> for Collector<U> {
             n == "JoinedStr" || n == "FormattedValue"
         });
         self.in_fstring.push(fs);
+        self.depths.push(n as u16);
     }
     fn map_user(&mut self, user: U, _context: ()) -> Result<U, Self::Error> {
         Ok(user)
@@ -287,20 +290,77 @@ fn innermost(ranges: &[TextRange], kinds: &[u32], names: &[String], lo: u32, hi:
     }
 }
 
+/// Name the place of a backwards `locate` structurally.
+///
+/// If a node *starts* at the offending offset, that node is the one being located and the
+/// culprit is the widest node before it in fold order that is not one of its ancestors and
+/// has a boundary where the cursor stood: a sibling the fold visited too early, or a node
+/// whose range reaches over what follows it. Otherwise the offending offset is the *end* of a
+/// node whose range does not cover one of its own descendants; that node is the culprit.
+fn fold_order_site(
+    ranges: &[TextRange],
+    kinds: &[u32],
+    depths: &[u16],
+    names: &[String],
+    offset: u32,
+    cursor: u32,
+    len: u32,
+) -> (String, String) {
+    let kind_of = |i: usize| names.get((kinds[i] & 0xffff) as usize).cloned().unwrap_or_default();
+    if let Some(j) = ranges.iter().rposition(|r| r.start().to_u32() == offset) {
+        let mut culprit: Option<usize> = None;
+        let mut min_depth = depths[j];
+        for i in (0..j).rev() {
+            if depths[i] < min_depth {
+                min_depth = depths[i]; // an ancestor of j
+                continue;
+            }
+            let r = ranges[i];
+            if r.end().to_u32() == cursor || r.start().to_u32() == cursor {
+                if culprit.map_or(true, |c| r.len() >= ranges[c].len()) {
+                    culprit = Some(i);
+                }
+            }
+        }
+        if let Some(c) = culprit {
+            return (kind_label(names, kinds[c]), kind_of(j));
+        }
+    }
+    // end of a node that does not cover a descendant
+    for j in 0..ranges.len() {
+        if ranges[j].end().to_u32() != offset {
+            continue;
+        }
+        let mut k = j + 1;
+        while k < ranges.len() && depths[k] > depths[j] {
+            if ranges[k].end().to_u32() == cursor || ranges[k].start().to_u32() == cursor {
+                return (format!("{}/end", kind_label(names, kinds[j])), kind_of(j));
+            }
+            k += 1;
+        }
+    }
+    (innermost(ranges, kinds, names, offset, cursor.min(len)), "end-of-node".to_string())
+}
+
 pub fn execute(case: &Case, stats: &mut Stats) -> Outcome {
     let mut non_extent: Option<(usize, String)> = None;
     let mut out = execute_inner(case, stats, &mut non_extent);
-    if let (Some(v), Some((o, site))) = (out.violation.as_mut(), non_extent) {
+    // (an out-of-order visit is decided by the offsets alone and keeps its own class)
+    let rooted_elsewhere = out.violation.as_ref().is_some_and(|v| v.class == "fold-order" || v.class == "bom-offset0");
+    if let (Some(v), Some((o, site)), false) = (out.violation.as_mut(), non_extent, rooted_elsewhere) {
         // The tree contains a range boundary that is no position of the source (between CR and
         // LF, or inside a multi-byte character): whatever went wrong downstream is rooted there.
         {
             v.detail = format!(
                 "the parsed tree has a node boundary at byte {o}, which is {} — then: [{}@{}] {}",
-                if case.source.is_char_boundary(o) { "between the CR and the LF of one line break" } else { "inside a multi-byte character" },
+                if o < case.source.len() && case.source.is_char_boundary(o) { "between the CR and the LF of one line break" } else { "inside a multi-byte character (or past the end)" },
                 v.class, v.site, v.detail
             );
             v.class = "range-not-a-source-extent".to_string();
-            v.site = site;
+            v.site = format!(
+                "{site}/{}",
+                if o < case.source.len() && case.source.is_char_boundary(o) { "inside-crlf" } else { "inside-char" }
+            );
             v.step = 0;
         }
     }
@@ -397,21 +457,35 @@ fn execute_inner(case: &Case, stats: &mut Stats, non_extent: &mut Option<(usize,
     // -------------------------------------------------------------------- the three folds
     let mut c0 = Collector::<TextRange>::new();
     let _ = c0.fold(tree.clone());
-    let (ranges, kinds, names, in_fstring) = c0.finish(true);
+    let (ranges, kinds, names, in_fstring, depths) = c0.finish(true);
     dg.word(ranges.len() as u64);
 
-    // ranges that are no source extent (the parser's business, C02): remember the first one
-    for (i, r) in ranges.iter().enumerate() {
-        for o in [r.start().to_usize(), r.end().to_usize()] {
-            if non_extent.is_none() && (o > src.len() || !src.is_char_boundary(o) || model::inside_crlf(src, o)) {
-                let site = if in_fstring[i] {
-                    "fstring-field".to_string()
-                } else {
-                    kind_label(&names, kinds[i])
+    // ranges that are no source extent (the parser's business, C02): remember the first
+    // boundary inside a multi-byte character, else the first one between a CR and its LF
+    {
+        let mut in_crlf: Option<(usize, String)> = None;
+        let mut in_char: Option<(usize, String)> = None;
+        for (i, r) in ranges.iter().enumerate() {
+            for o in [r.start().to_usize(), r.end().to_usize()] {
+                let site = || {
+                    if in_fstring[i] {
+                        "fstring-field".to_string()
+                    } else {
+                        kind_label(&names, kinds[i])
+                    }
                 };
-                *non_extent = Some((o.min(src.len()), site));
-                stats.bump(C::trees_with_a_range_that_is_no_source_extent as usize);
+                if o > src.len() || !src.is_char_boundary(o) {
+                    if in_char.is_none() {
+                        in_char = Some((o.min(src.len()), site()));
+                    }
+                } else if model::inside_crlf(src, o) && in_crlf.is_none() {
+                    in_crlf = Some((o, site()));
+                }
             }
+        }
+        *non_extent = in_char.or(in_crlf);
+        if non_extent.is_some() {
+            stats.bump(C::trees_with_a_range_that_is_no_source_extent as usize);
         }
     }
 
@@ -440,8 +514,8 @@ fn execute_inner(case: &Case, stats: &mut Stats, non_extent: &mut Option<(usize,
         PMode::Interactive => stats.bump(C::probe_mode_interactive as usize),
         _ => {}
     }
-    let rows = model::rows(src);
-    let row_of = |o: usize| rows.iter().rposition(|&(s, _)| s <= o).unwrap_or(0);
+    let table = model::RowTable::new(src);
+    let row_of = |o: usize| table.row_of(o);
     for h in &history {
         match h.kind {
             CallKind::Locate => stats.bump(C::locate_calls as usize),
@@ -492,19 +566,11 @@ fn execute_inner(case: &Case, stats: &mut Stats, non_extent: &mut Option<(usize,
     for (i, h) in history.iter().enumerate() {
         if h.kind == CallKind::Locate && h.offset < h.cursor_before {
             let before_bom = has_bom && h.offset < 3 && h.cursor_before <= 3;
-            let (class, site) = if before_bom {
-                ("bom-offset0".to_string(), "NodeBeforeBom".to_string())
+            let (class, site, at) = if before_bom {
+                ("bom-offset0".to_string(), "NodeBeforeBom".to_string(), "first".to_string())
             } else {
-                let encl = innermost(&ranges, &kinds, &names, h.offset, h.cursor_before.min(src.len() as u32));
-                // which node starts (or ends) at the offending offset
-                let at = ranges
-                    .iter()
-                    .zip(kinds.iter())
-                    .filter(|(r, _)| r.start().to_u32() == h.offset)
-                    .map(|(_, k)| names.get((k & 0xffff) as usize).cloned().unwrap_or_default())
-                    .last()
-                    .unwrap_or_else(|| "end-of-node".into());
-                ("fold-order".to_string(), format!("{encl}/{at}"))
+                let (encl, at) = fold_order_site(&ranges, &kinds, &depths, &names, h.offset, h.cursor_before, src.len() as u32);
+                ("fold-order".to_string(), encl, at)
             };
             return done(
                 dg,
@@ -514,7 +580,7 @@ fn execute_inner(case: &Case, stats: &mut Stats, non_extent: &mut Option<(usize,
                     site,
                     step: i,
                     detail: format!(
-                        "linear fold called locate({}) with the cursor already at {} (call #{i} of {}); a debug build aborts here, a release build may return a wrong row/column",
+                        "linear fold called locate({}) for a {at} node with the cursor already at {} (call #{i} of {}); a debug build aborts here, a release build may return a wrong row/column",
                         h.offset,
                         h.cursor_before,
                         history.len()
@@ -562,10 +628,10 @@ fn execute_inner(case: &Case, stats: &mut Stats, non_extent: &mut Option<(usize,
     // ------------------------------------------------------------ node-by-node comparison
     let mut cl = Collector::<SourceRange>::new();
     let _ = cl.fold(lin_tree);
-    let (lin_items, _, _, _) = cl.finish(false);
+    let (lin_items, _, _, _, _) = cl.finish(false);
     let mut cr = Collector::<SourceRange>::new();
     let _ = cr.fold(rnd_tree);
-    let (rnd_items, _, _, _) = cr.finish(false);
+    let (rnd_items, _, _, _, _) = cr.finish(false);
     if lin_items.len() != ranges.len() || rnd_items.len() != ranges.len() {
         return done(
             dg,
@@ -589,7 +655,7 @@ fn execute_inner(case: &Case, stats: &mut Stats, non_extent: &mut Option<(usize,
             // a node range that is not a source extent is C02's business
             continue;
         }
-        let want = (model::row_col(src, s), Some(model::row_col(src, e)));
+        let want = (table.row_col(s), Some(table.row_col(e)));
         let l = sr_tuple(&lin_items[i]);
         let r = sr_tuple(&rnd_items[i]);
         dg.word(((want.0 .0 as u64) << 32) | want.0 .1 as u64);
